@@ -1,13 +1,15 @@
 // A minimal event::Loop whose runInLoop is a mutex-protected queue (the real loop is C01's subject).
 #pragma once
 #include <tbox/event/loop.h>
+#include "sched/sched.h"
 #include <mutex>
 #include <vector>
 struct FakeLoop : tbox::event::Loop {
   std::mutex m; std::vector<Func> q; WaterLine wl; int posted = 0;
+  bool closed_for_workers = false; int late_worker_posts = 0;     // set by a harness once the component's cleanup() has returned: a post from another thread after that is counted
   void runLoop(Mode) override {} void exitLoop(const std::chrono::milliseconds &) override {}
   bool isInLoopThread() override { return true; } bool isRunning() const override { return true; }
-  RunId runInLoop(Func &&f, const std::string &) override { std::lock_guard<std::mutex> g(m); q.push_back(std::move(f)); return ++posted; }
+  RunId runInLoop(Func &&f, const std::string &) override { std::lock_guard<std::mutex> g(m); if (closed_for_workers && sched_self() != 0) late_worker_posts++; q.push_back(std::move(f)); return ++posted; }
   RunId runInLoop(const Func &f, const std::string &) override { std::lock_guard<std::mutex> g(m); q.push_back(f); return ++posted; }
   RunId runNext(Func &&f, const std::string &w) override { return runInLoop(std::move(f), w); }
   RunId runNext(const Func &f, const std::string &w) override { return runInLoop(f, w); }
